@@ -38,7 +38,8 @@ fn short(n: &NodeId) -> String {
 }
 
 /// builds the FeeOutcome event of a committed receipt and commits it to `db`
-pub fn fee_outcome(db: &mut InMemorySubstateDatabase, receipt: &TransactionReceipt, label: &str) -> Option<Value> {
+/// `contingent`: vaults from which the transaction locked a fee only contingently (known from its manifest)
+pub fn fee_outcome(db: &mut InMemorySubstateDatabase, receipt: &TransactionReceipt, label: &str, contingent: &[NodeId]) -> Option<Value> {
     let commit = match &receipt.result {
         TransactionResult::Commit(c) => c,
         _ => return None,
@@ -46,6 +47,11 @@ pub fn fee_outcome(db: &mut InMemorySubstateDatabase, receipt: &TransactionRecei
     let royalty_vaults: Vec<(NodeId, Decimal)> = commit.fee_destination.to_royalty_recipients.iter().map(|(r, a)| (r.vault_id(), *a)).collect();
     let mut vaults: Vec<NodeId> = commit.fee_source.paying_vaults.keys().cloned().collect();
     for (v, _) in &royalty_vaults {
+        if !vaults.contains(v) {
+            vaults.push(*v);
+        }
+    }
+    for v in contingent {
         if !vaults.contains(v) {
             vaults.push(*v);
         }
@@ -91,6 +97,9 @@ pub fn fee_outcome(db: &mut InMemorySubstateDatabase, receipt: &TransactionRecei
                  "royalties": royalty_vaults.iter().map(|(v, a)| json!({"v": short(v), "amt": limbs(*a)})).collect::<Vec<_>>()},
         "vaults": (0..n_pay).map(|k| json!({"v": short(&vaults[k]), "before": limbs(before[k]), "after": limbs(after[k]), "deposits": limbs(dep[k]),
                                             "withdrawals": limbs(wd[k]), "paid": limbs(paid[k])})).collect::<Vec<_>>(),
+        "contingentVaults": contingent.iter().map(|v| { let k = vaults.iter().position(|x| x == v).unwrap();
+                                            json!({"v": short(v), "before": limbs(before[k]), "after": limbs(after[k]), "deposits": limbs(dep[k]),
+                                                   "withdrawals": limbs(wd[k]), "paid": limbs(paid[k])}) }).collect::<Vec<_>>(),
         "royaltyVaults": royalty_vaults.iter().map(|(v, a)| { let k = vaults.iter().position(|x| x == v).unwrap();
                                             json!({"v": short(v), "before": limbs(before[k]), "after": limbs(after[k]), "deposits": limbs(dep[k]),
                                                    "withdrawals": limbs(Decimal::ZERO.checked_add(wd[k]).unwrap().checked_add(paid[k]).unwrap()), "credited": limbs(*a)}) }).collect::<Vec<_>>(),
@@ -157,7 +166,7 @@ pub fn run(mode: &str, args: &Args) {
             for_each_scenario_transaction(max, &also, |db: &mut InMemorySubstateDatabase, validator: &TransactionValidator, label: &str, raw: &RawNotarizedTransaction| {
                 let validated = raw.validate(validator).expect("scenario transaction validates");
                 let receipt = execute_transaction(&*db, &VmModules::default(), &ExecutionConfig::for_notarized_transaction(network.clone()), validated.create_executable());
-                if let Some(ev) = fee_outcome(db, &receipt, label) {
+                if let Some(ev) = fee_outcome(db, &receipt, label, &[]) {
                     out.emit(&ev);
                     n += 1;
                 }
@@ -193,11 +202,14 @@ fn history(args: &Args, out: &mut Out) {
             1 => m.lock_fee(acc_a, fee).lock_fee(acc_b, Decimal::from(2u32)),
             2 => m.lock_contingent_fee(acc_b, Decimal::from(3u32)).lock_fee(acc_a, fee),
             3 => m.lock_fee(acc_a, dec!("0.6")).lock_contingent_fee(acc_b, Decimal::from(30u32)),
+            // fails with the contingent lock made LAST (the one the executor would draw from first): it must pay nothing
+            5 => m.lock_fee(acc_a, fee).lock_contingent_fee(acc_b, Decimal::from(30u32)),
             _ => m.lock_fee(acc_a, fee),
         };
         let amount = Decimal::from(rng.gen_range(1..20u32));
         m = m.withdraw_from_account(acc_a, XRD, amount);
-        m = if kind == 4 {
+        let contingent: Vec<NodeId> = if kind == 2 || kind == 3 || kind == 5 { ledger.get_component_vaults(acc_b, XRD) } else { vec![] };
+        m = if kind == 4 || kind == 5 {
             // fails after the fee loan is repaid: more is taken from the worktop than is there
             m.take_from_worktop(XRD, amount.checked_add(Decimal::ONE).unwrap(), "b").try_deposit_or_abort(acc_b, None, "b")
         } else {
@@ -215,7 +227,7 @@ fn history(args: &Args, out: &mut Out) {
             config.system_overrides = Some(SystemOverrides { costing_parameters: Some(cp), ..Default::default() });
         }
         let receipt = ledger.execute_transaction_no_commit(executable, config);
-        if let Some(ev) = fee_outcome(ledger.substate_db_mut(), &receipt, &format!("history:{}:kind{}", k, kind)) {
+        if let Some(ev) = fee_outcome(ledger.substate_db_mut(), &receipt, &format!("history:{}:kind{}", k, kind), &contingent) {
             out.emit(&ev);
         } else {
             out.emit(&json!({"a": "skipped", "label": format!("history:{}:kind{}", k, kind), "result": format!("{:?}", receipt.result).chars().take(100).collect::<String>()}));
